@@ -177,7 +177,7 @@ def arg_spec(a, sp, level=0):
         if n == "dict":
             opts.append("map")
         name = sp.pick(opts, "map-for-dict")
-        form = sp.pick(["name", "object"], "type-object")
+        form = "name" if getattr(sp, "no_type_objects", False) else sp.pick(["name", "object"], "type-object")
         if form == "object":
             return M.TYPES[n]
         return sp.case(name)
@@ -309,7 +309,7 @@ def nary_spec(term, rng=None, sp=None):
 
 def _comp_spec(c, kind, sp):
     if type(c) is dict and "prim" in c and "c" not in c:
-        return {kind + ".equal_to": c["prim"]}
+        return leaf_spec({"c": "leaf", "kind": kind, "pre": None, "fn": "equal_to", "args": [c["prim"]]}, sp)
     return cond_spec(c, sp)
 
 
@@ -322,18 +322,22 @@ def part_spec(part, sp=None, shorthand=False):
     if p == "mol" and sp.pick([False, True], "default-part-type"):
         del out["type"]
     for k in ("condition", "map_condition", "list_condition"):
-        if part.get(k) is not None:
+        if part.get(k) is not None and M.simplify(part[k])["c"] != "null":
             out[k] = cond_spec(part[k], sp)
     for k in ("key", "index", "value"):
         c = part.get(k)
         if c is None:
             continue
         is_prim = type(c) is dict and "prim" in c and "c" not in c
+        if not is_prim and M.simplify(c)["c"] == "null":
+            continue  # a null component is spelled by leaving it out
         single_leaf = is_prim or c.get("c") == "leaf"
         if single_leaf and sp.pick([False, True], "shorthand-part"):
             s = _comp_spec(c, k, sp)
             (sk, sv), = s.items()
-            out[sk] = sv
+            # the shorthand is recognised by its lower-case `key.` / `index.` / `value.` prefix
+            first, _, rest = sk.partition(".")
+            out[first.lower() + "." + rest] = sv
         else:
             out[k] = _comp_spec(c, k, sp)
     if part.get("label") is not None:
